@@ -237,11 +237,16 @@ def job_mog(cfg):
             E = sc.t_exp(lp.a[0].t)
             c = tm.app("exp", [tm.const(tm.read_float(-0.5 * LOG_2PI))])
             encl = [a for a in tm.atoms(E) if a.args[0] == "exp" and isinstance(a.args[1], tm.T) and a.args[1].op == "const"]
-            kval = 1.0
-            for a in encl:
-                kval *= tm.evaluate(a, {})
-            rec.check(tag + "/gaussian-constant==(2pi)^(-F/2)", len(encl) >= 1 and abs(kval - (2 * math.pi) ** (-0.5 * Fn)) < 1e-9, str(kval))
-            ref = tm.mul(prod, *encl)
+            # one enclosed constant exp(-0.5*log(2 pi)), occurring once per feature (the identity below decides the power)
+            # (the engine merges the per-feature constants into one atom when there is a single component, and keeps
+            # exp(-0.5*log(2 pi)) per feature otherwise; the power is fixed here and *decided* by the identity below)
+            pw = 0
+            if len(encl) == 1:
+                arg = float(encl[0].args[1].args[0])
+                pw = int(round((-0.5 * Fn * LOG_2PI) / arg)) if arg else 0
+            kval = (tm.evaluate(encl[0], {}) ** pw) if pw >= 1 else float("nan")
+            rec.check(tag + "/gaussian-constant==(2pi)^(-F/2)", pw >= 1 and abs(kval - (2 * math.pi) ** (-0.5 * Fn)) < 1e-9, str(kval))
+            ref = tm.mul(prod, *[tm.power(a, max(pw, 1)) for a in encl])
             rec.identity(tag + "/exp(log_prob)==prod_d sum_k pi_dk N(x_d;mu_dk,sigma_dk) [N,F,M,3 layout]", E, ref)
     finally:
         CFG.simplex_shortcut = True
@@ -378,6 +383,30 @@ def replay(kernel, sig):
                 integral = float(torch.trapz(torch.trapz(torch.exp(lp.double()), g2.double()), g2.double())) if Fn == 2 else 1.0
             res["integral"] = integral
             res["reproduced"] = abs(integral - 1) > 1e-3
+            if M >= 2:
+                # density and sampler must read the conditioner output in the same layout: craft outputs (in the
+                # documented [feature, component, {logit, mean, std}] order) with one dominant, narrow component per
+                # feature; samples then sit on its mean and log_prob there must be large
+                out = torch.zeros(1, Fn, M, 3)
+                out[..., 0] = -30.0
+                out[:, :, 0, 0] = 30.0
+                for k in range(M):
+                    out[:, :, k, 1] = 3.0 * (k + 1)
+                out[..., 2] = -3.0
+                flat = out.reshape(1, Fn * M * 3)
+                net.forward = lambda inputs, context=None: flat.expand(inputs.shape[0], -1)
+                with torch.no_grad():
+                    smp = net.sample(20)
+                    lp_at = net.log_prob(torch.full((1, Fn), 3.0))
+                    lp_smp = net.log_prob(smp)
+                res["samples_mean"] = float(smp.mean())
+                res["log_prob_at_dominant_mean"] = float(lp_at[0])
+                res["min_log_prob_of_own_samples"] = float(lp_smp.min())
+                sigma = float(torch.nn.functional.softplus(torch.tensor(-3.0))) + float(net.epsilon)
+                expect_lp = -Fn * math.log(sigma * math.sqrt(2 * math.pi))
+                res["expected_log_prob_at_dominant_mean"] = expect_lp
+                if abs(float(lp_at[0]) - expect_lp) > 0.5 or abs(float(smp.mean()) - 3.0) > 0.5:
+                    res["reproduced"] = True
         else:
             N, D = sig["N"], sig["D"]
             s = torch.randn(N, D)
